@@ -119,7 +119,15 @@ func c19Arg(r *vu.Rng, hostile bool) string {
 	if !hostile {
 		return w
 	}
-	switch r.Intn(9) {
+	switch r.Intn(14) {
+	case 9:
+		return "$zq_" + strconv.Itoa(r.Intn(9)) + `\a{` // an escape ends "after $": this '{' opens a block
+	case 10:
+		return w + `"` + c19Pick(r, c19ArgWords) + `;` + c19Pick(r, c19ArgWords) + `"` // a quote inside a bare token is an ordinary character
+	case 11:
+		return w + "#" + c19Pick(r, c19ArgWords) // so is '#'
+	case 12:
+		return w + "}" + c19Pick(r, c19ArgWords) // and '}'
 	case 0:
 		return `"` + w + `; ` + c19Pick(r, c19ArgWords) + ` ` + c19Pick(r, c19ArgWords) + `"`
 	case 1:
